@@ -229,6 +229,4 @@ var initSkipPrefixes = []string{
 	"github.com/cosmos/cosmos-sdk/x/authz/codec.",
 	"github.com/cosmos/cosmos-sdk/x/gov/codec.",
 	"github.com/cosmos/cosmos-sdk/x/group/codec.",
-	"regexp.MustCompile",
-	"regexp.Compile",
 }
